@@ -308,7 +308,67 @@ func genCallers() (string, int, error) {
 		return "", 0, err
 	}
 	def("desugarDelta", dd, "sugar.go: Desugar() does `callerSkip -= n`")
-	// unexported log / logln: one direct s.base.Check(lvl, msg), one direct s.sweetenFields(context)
+	// sweetenFields: its diagnostics go through s.base.Error directly, or — when it takes a skip parameter —
+	// through s.base.WithOptions(AddCallerSkip(<that parameter>)).Error
+	sweeten := findFunc(sf, "SugaredLogger", "sweetenFields")
+	if sweeten == nil {
+		return "", 0, fmt.Errorf("func (*SugaredLogger) sweetenFields not found")
+	}
+	skipParam := ""
+	{
+		var names []string
+		for _, p := range sweeten.Type.Params.List {
+			for _, n := range p.Names {
+				names = append(names, n.Name)
+			}
+		}
+		switch len(names) {
+		case 1:
+		case 2:
+			skipParam = names[1]
+		default:
+			return "", 0, fmt.Errorf("sweetenFields has %d parameters", len(names))
+		}
+		r := csRecvName(sweeten)
+		nd := 0
+		for _, c := range csCalls(sweeten.Body) {
+			sel, ok := c.Fun.(*ast.SelectorExpr)
+			if !ok || sel.Sel.Name != "Error" || !strings.HasPrefix(exprString(sel.X), r+".base") {
+				continue
+			}
+			nd++
+			x := exprString(sel.X)
+			switch {
+			case skipParam == "" && x == r+".base":
+			case skipParam != "" && x == r+".base.WithOptions(AddCallerSkip("+skipParam+"))":
+			default:
+				return "", 0, fmt.Errorf("sweetenFields: diagnostic issued through `%s` (skip parameter %q)", x, skipParam)
+			}
+		}
+		if nd != 3 {
+			return "", 0, fmt.Errorf("sweetenFields: expected 3 diagnostic calls, found %d", nd)
+		}
+	}
+	sweetenArg := func(fd *ast.FuncDecl) (int, error) {
+		r := csRecvName(fd)
+		cs := csCallsTo(fd.Body, r+".sweetenFields")
+		if len(cs) != 1 {
+			return 0, fmt.Errorf("SugaredLogger.%s: expected one direct %s.sweetenFields call, found %d", fd.Name.Name, r, len(cs))
+		}
+		switch {
+		case skipParam == "" && len(cs[0].Args) == 1:
+			return 0, nil
+		case skipParam != "" && len(cs[0].Args) == 2:
+			n, ok := csIntLit(cs[0].Args[1])
+			if !ok {
+				return 0, fmt.Errorf("SugaredLogger.%s: sweetenFields skip argument `%s` is not an integer literal", fd.Name.Name, exprString(cs[0].Args[1]))
+			}
+			return n, nil
+		}
+		return 0, fmt.Errorf("SugaredLogger.%s: sweetenFields called with %d arguments", fd.Name.Name, len(cs[0].Args))
+	}
+	// unexported log / logln: one direct s.base.Check(lvl, msg), one direct s.sweetenFields(context[, skip])
+	skipLog := -1
 	for _, nm := range []string{"log", "logln"} {
 		fd := findFunc(sf, "SugaredLogger", nm)
 		if fd == nil {
@@ -318,10 +378,16 @@ func genCallers() (string, int, error) {
 		if n := len(csCallsTo(fd.Body, r+".base.Check")); n != 1 {
 			return "", 0, fmt.Errorf("SugaredLogger.%s: expected one direct %s.base.Check call, found %d", nm, r, n)
 		}
-		if n := len(csCallsTo(fd.Body, r+".sweetenFields")); n != 1 {
-			return "", 0, fmt.Errorf("SugaredLogger.%s: expected one direct %s.sweetenFields call, found %d", nm, r, n)
+		n, err := sweetenArg(fd)
+		if err != nil {
+			return "", 0, err
 		}
+		if skipLog >= 0 && n != skipLog {
+			return "", 0, fmt.Errorf("log and logln pass different skips to sweetenFields (%d, %d)", skipLog, n)
+		}
+		skipLog = n
 	}
+	def("sweetenSkipLog", skipLog, "sugar.go: extra caller skip log/logln hand to sweetenFields for its diagnostics (0 when it takes none)")
 	if lc := findFunc(lf, "Logger", "Check"); lc == nil || len(csCallsTo(lc.Body, csRecvName(lc)+".check")) != 1 {
 		return "", 0, fmt.Errorf("Logger.Check does not call check directly")
 	}
@@ -420,15 +486,21 @@ def sugarMethods : List SugarMethod := [
 	}
 	sb.WriteString("]\n")
 	// With / WithLazy call sweetenFields directly
+	skipWith := -1
 	for _, nm := range []string{"With", "WithLazy"} {
 		fd := findFunc(sf, "SugaredLogger", nm)
 		if fd == nil {
 			return "", 0, fmt.Errorf("func (*SugaredLogger) %s not found", nm)
 		}
 		r := csRecvName(fd)
-		if n := len(csCallsTo(fd.Body, r+".sweetenFields")); n != 1 {
-			return "", 0, fmt.Errorf("SugaredLogger.%s: expected one direct sweetenFields call, found %d", nm, n)
+		n, err := sweetenArg(fd)
+		if err != nil {
+			return "", 0, err
 		}
+		if skipWith >= 0 && n != skipWith {
+			return "", 0, fmt.Errorf("With and WithLazy pass different skips to sweetenFields (%d, %d)", skipWith, n)
+		}
+		skipWith = n
 		if n := len(csCallsTo(fd.Body, r+".base."+nm)); n != 1 {
 			return "", 0, fmt.Errorf("SugaredLogger.%s: expected one direct %s.base.%s call, found %d", nm, r, nm, n)
 		}
@@ -442,6 +514,7 @@ def sugarMethods : List SugarMethod := [
 		fmt.Fprintf(&sb, "%q", d)
 	}
 	sb.WriteString("]\n\n")
+	def("sweetenSkipWith", skipWith, "sugar.go: extra caller skip With/WithLazy hand to sweetenFields for its diagnostics (0 when it takes none)")
 
 	// ---- options.go
 	_, of, err := parseFile("options.go")
